@@ -27,6 +27,9 @@ inductive SOp where
   | drop    (mid : Nat)
   | dup     (mid : Nat)
   | sync    (r q : Nat)
+  /-- a replica rebuilds its in-memory tree from storage (rollback after a failed storage write,
+  restart): nothing but the root may change -/
+  | reroot  (r root' : Nat)
 deriving Repr
 
 def sstep (ss : SState) : SOp → Option SState
@@ -48,6 +51,10 @@ def sstep (ss : SState) : SOp → Option SState
   | .drop mid => (step ss.base (.drop mid)).map (fun b => { ss with base := b })
   | .dup mid => (step ss.base (.dup mid)).map (fun b => { ss with base := b })
   | .sync r q => (step ss.base (.sync r q)).map (fun b => { ss with base := b })
+  | .reroot r root' =>
+    if decide (r < ss.base.n) && rootOkB ss.base.dag ss.sn (ss.base.get r) root' then
+      some { ss with roots := ss.roots.set r root' }
+    else none
 
 def srun (ss : SState) : List SOp → Option SState
   | [] => some ss
@@ -217,6 +224,21 @@ theorem sinv_other (ss : SState) (b : State) (h : SInv ss) (hinv : Inv b) (hd : 
       show RootOk b.dag ss.sn (b.get r) (ss.root r)
       rw [hd, hg r]; exact h.rootOk r (hn ▸ hr) }
 
+theorem sinv_reroot (ss : SState) (r root' : Nat) (h : SInv ss) (hr : r < ss.base.n)
+    (hok : rootOkB ss.base.dag ss.sn (ss.base.get r) root' = true) :
+    SInv { ss with roots := ss.roots.set r root' } :=
+  { inv := h.inv, snap := h.snap
+    rlen := by simp [h.rlen]
+    rootOk := by
+      intro x hx
+      show RootOk ss.base.dag ss.sn (ss.base.get x) ((ss.roots.set r root').getD x 0)
+      by_cases hxr : x = r
+      · subst hxr
+        rw [root_set_same ss _ _ (h.rlen ▸ hr)]
+        exact rootOkB_sound hok
+      · rw [root_set_ne ss _ x _ (Ne.symm hxr)]
+        exact h.rootOk x hx }
+
 theorem sinv_sstep (ss ss' : SState) (op : SOp) (h : SInv ss) (hs : sstep ss op = some ss') :
     SInv ss' := by
   cases op with
@@ -321,6 +343,15 @@ theorem sinv_sstep (ss ss' : SState) (op : SOp) (h : SInv ss) (hs : sstep ss op 
         split at hb
         · simp at hb; subst hb; rfl
         · simp at hb)
+  | reroot r root' =>
+    simp only [sstep] at hs
+    split at hs
+    · rename_i hc
+      simp only [Bool.and_eq_true, decide_eq_true_eq] at hc
+      simp only [Option.some.injEq] at hs
+      subst hs
+      exact sinv_reroot ss r root' h hc.1 hc.2
+    · simp at hs
 
 theorem sinv_srun (ss ss' : SState) (ops : List SOp) (h : SInv ss) (hr : srun ss ops = some ss') :
     SInv ss' := by
